@@ -69,7 +69,8 @@ def run(module, cfg=None, workers=16, timeout=600, extra=(), env=None, simulate=
     """Run TLC on specs/<module>.tla with specs/<cfg>. Returns TlcResult.
     Raises TlcError for parse errors, timeouts, crashes."""
     meta = tempfile.mkdtemp(prefix="tlcmeta_")
-    cmd = ["java", "-XX:+UseParallelGC", "-Xmx" + heap] + list(jvm) + [
+    # TLC leaves an empty tlc-<nanos> directory in java.io.tmpdir per run: keep it inside the metadir that is removed afterwards
+    cmd = ["java", "-XX:+UseParallelGC", "-Xmx" + heap, "-Djava.io.tmpdir=" + meta] + list(jvm) + [
         "-cp", JAR + ":" + DEPS, "tlc2.TLC",
         "-workers", str(workers), "-metadir", meta, "-noGenerateSpecTE",
     ]
